@@ -533,6 +533,12 @@ theorem simdReduceAxis_nonLastAxis_eq_fold (N : Nat) (hN : 0 < N) (packOp : List
     congr 1
     omega
 
+/-- known finding `reduce.no-identity`: `subtract.reduce` through the SIMD evaluator starts every output cell from 0
+    (no `identity()`), the scalar evaluator from the first element: `0-1-4 = -5` against `1-4 = -3` -/
+theorem simdReduce_subtract_counterexample :
+    simdReduceAxis 4 (List.zipWith (· - ·)) (· - ·) (0 : Int) 0 ⟨[2,3], false, [1,2,3,4,5,6]⟩ 0 = some [-5,-7,-9]
+      ∧ scalarReduceAxis (· - ·) (⟨[2,3], false, [1,2,3,4,5,6]⟩ : NDA Int) 0 = some [-3,-3,-3] := by decide
+
 /- PARTIAL (not proved; kept as the full statement): for a well-formed row-major `a` of any rank, `axis < a.shape.length - 1`,
    more than one output element, over a commutative monoid `(op, e)`:
      simdReduceAxis N packOp op zero e a axis = scalarReduceAxis op a axis
